@@ -339,8 +339,8 @@ def second(items, n):
 
 
 REPLAY = {'quick': [('ab', 2, 40, 1), ('a_b', 2, 30, 0)],
-          'thorough': [('ab', 2, 700, 1), ('a_b', 2, 300, 0),
-                       ('abc', 2, 300, 1), ('ab_c', 3, None, 1, 'num=300')]}
+          'thorough': [('ab', 2, 400, 1), ('a_b', 2, 200, 0),
+                       ('abc', 2, 200, 1), ('ab_c', 3, None, 1, 'num=200')]}
 
 
 def main():
